@@ -517,7 +517,7 @@ pub fn run(run: &Run) {
         ];
         (1u8..=maxn, topo, any::<u8>(), prop::collection::vec(op, 1..=maxlen)).prop_map(|(n, topo, id_seed, ops)| Case { n, topo, id_seed, ops })
     };
-    run.prop_f("history", run.tier.pick(4800, 48000), sh, case, run_case);
+    run.prop_f("history", run.tier.pick(8000, 64000), sh, case, run_case);
 }
 
 pub fn replay(run: &Run, sub: &str, case: &Value) -> Option<bool> {
